@@ -20,6 +20,7 @@ const (
 type specials struct {
 	sameTag [][2]int // materials whose 257-form key tags collide
 	wrap    []int    // materials whose revoked form's tag is not tag+128 (carry in the tag fold)
+	revTag  [][3]int // {a, b, flags}: key b with these flags has the key tag of a's REVOKE form
 }
 
 var spec *specials
@@ -39,6 +40,17 @@ func findSpecials() *specials {
 		}
 		if tagOf(id, 385) != t+128 {
 			s.wrap = append(s.wrap, id)
+		}
+	}
+	rev := map[uint16]int{}
+	for id := 0; id < 1600; id++ {
+		rev[tagOf(id, 385)] = id
+	}
+	for id := 0; id < 1600 && len(s.revTag) < 40; id++ {
+		for _, fl := range []uint16{257, 256} {
+			if a, ok := rev[tagOf(id, fl)]; ok && a != id {
+				s.revTag = append(s.revTag, [3]int{a, id, int(fl)})
+			}
 		}
 	}
 	spec = s
@@ -367,7 +379,22 @@ func (st *story) removeKey() {
 	st.zone = append(st.zone[:i:i], st.zone[i+1:]...)
 }
 
+// revokeGone publishes the REVOKE form of a configured key the root had stopped publishing.
+func (st *story) revokeGone() bool {
+	for _, c := range shuffled(st.r, st.cfg) {
+		if c.sep() && !c.revoked() && st.has(c.id) < 0 && !st.revoked[c.id] {
+			st.zone = append(st.zone, mk(c.id, 385))
+			st.revoked[c.id] = true
+			return true
+		}
+	}
+	return false
+}
+
 func (st *story) revokeKey() {
+	if st.r.Chance(1, 3) && st.revokeGone() {
+		return
+	}
 	var cand []int
 	for i, k := range st.zone {
 		if !k.revoked() {
@@ -838,6 +865,61 @@ func storyRideAlong(st *story) {
 	st.honest(0, 0)
 }
 
+// storyRevocationEvidence: who may revoke an anchor — only the anchor's own key, whatever
+// else is in the set, whatever the tags, and whether the anchor is Valid or Missing.
+func storyRevocationEvidence(st *story) {
+	r := st.r
+	sp := findSpecials()
+	switch r.Intn(3) {
+	case 0:
+		// Missing, then revoked: K1 disappears from a validly signed set, later the root
+		// publishes K1+REVOKE, self-signed and co-signed
+		k1, k2 := st.mats[0], st.mats[1]
+		st.start([]kref{mk(k1, 257), mk(k2, 257)})
+		st.honest(0, 0)
+		st.zone = []kref{mk(k2, 257)}
+		st.honest(0, 0)
+		st.tick(vlib.Pick(r, []int64{12 * hour, 10 * day, 60 * day}))
+		if r.Bool() {
+			st.honest(0, 0)
+		}
+		st.zone = []kref{mk(k2, 257), mk(k1, 385)}
+		signers := []kref{mk(k2, 257), mk(k1, 385)}
+		if r.Chance(1, 4) {
+			signers = []kref{mk(k1, 385)} // revocation-only
+		}
+		st.run(st.served(), signers, nil, vlib.Pick(r, []string{"-", "-", "T", "S"}), "-")
+		st.zone = []kref{mk(k2, 257)}
+		st.honest(0, 0)
+		st.op("autota restart")
+		st.honest(0, 0)
+	default:
+		// REVOKE copy of K1 that K1 never signed, next to a key S with the SAME tag as that
+		// copy whose signature does verify (and K2's full authentication)
+		if len(sp.revTag) == 0 {
+			return
+		}
+		p := vlib.Pick(r, sp.revTag)
+		k1, s, sfl, k2 := p[0], p[1], uint16(p[2]), st.mats[0]
+		st.start([]kref{mk(k1, 257), mk(k2, 257)})
+		st.honest(0, 0)
+		if r.Bool() { // K1 may already be missing
+			st.zone = []kref{mk(k2, 257)}
+			st.honest(0, 0)
+		}
+		set := []kref{mk(k1, 385), mk(k2, 257), mk(s, sfl)}
+		signers := []kref{mk(k2, 257), mk(s, sfl)}
+		if r.Chance(1, 3) {
+			signers = []kref{mk(s, sfl)} // not even authenticated
+		}
+		st.run(shuffled(r, set), signers, st.claims([]kref{mk(k1, 385)}, 1, 2), "-", "-")
+		st.zone = []kref{mk(k1, 257), mk(k2, 257)}
+		st.honest(0, 0)
+		st.op("autota restart")
+		st.honest(0, 0)
+	}
+}
+
 // storyForgedClaims: what VERIFIES decides, not which key tags the RRSIGs carry.
 func storyForgedClaims(st *story) {
 	r := st.r
@@ -950,7 +1032,8 @@ func gen(r0 *vlib.R, n int, tier string, emit func(string)) {
 	count := 0
 	wrap := func(s string) { emit(s); count++ }
 	scripted := []func(*story){storyRollover, storyMissing, storyMissing, storyLegacy, storyCollision, storyDamagedStore, storyDamagedStore,
-		storyForgedClaims, storyForgedClaims, storyForgedClaims, storyRideAlong, storyRideAlong, storyRideAlong}
+		storyForgedClaims, storyForgedClaims, storyForgedClaims, storyRideAlong, storyRideAlong, storyRideAlong,
+		storyRevocationEvidence, storyRevocationEvidence, storyRevocationEvidence, storyRevocationEvidence}
 	for _, f := range scripted {
 		f(newStory(r, wrap))
 	}
